@@ -131,7 +131,7 @@ func RunOne(scn Scenario, tmpl, dir string, tr int, seed int64, choices []string
 	lockBlocked := map[string]bool{}
 	var order []string
 	var envs []*envStep
-	const wait = 15 * time.Second
+	const wait = 45 * time.Second // generous: under a loaded machine a storage call can wait long for the single SQLite connection
 	// a request that has not started yet is a schedulable step of its own ("start"), dependent
 	// on everything: which request enters a critical section first is explored too
 	type starter struct {
